@@ -264,15 +264,21 @@ def drivers(acc, w, t, got, want, case):
         s0 = w.space[[1, 0, len(w.space) - 1]].clone()
         v = call(got.sample, st, 2, initial_state=s0, overwrite=True)
         v = np.asarray(v.numpy() if isinstance(v, torch.Tensor) else v, dtype=float)
-        if len(cap) != 1:
+        if len(cap) > 1:
             acc.viol("composite:sample-entry-point-draws-more-than-one-batch:" + kinds_of(w, t), case, observed=len(cap), expected=1)
         else:
-            exp = np.array([lookup[tuple(int(x) for x in r)] for r in cap[0].tolist()])
-            if not close(np.broadcast_to(v, exp.shape), exp, 1e-12) or not torch.equal(s0, cap[0]):
+            # the batch that was evaluated: what the state's sample() returned, or - should an implementation advance the
+            # chain without going through it - the caller's start state, which overwrite=True leaves holding the final states
+            batch = cap[0] if cap else s0
+            exp = np.array([lookup[tuple(int(x) for x in r)] for r in batch.tolist()])
+            if not close(np.broadcast_to(v, exp.shape), exp, 1e-12) or not torch.equal(s0, batch):
                 acc.viol("composite:sample-entry-point-value:" + kinds_of(w, t), case, observed=v, expected=exp)
         del cap[:]
         torch.manual_seed(4)
         sres = call(got.statistics, st, 5, num_chains=2, burn_in=1, steps=1)
+        if not cap:
+            acc.count("statistics-entry-point-not-observable")
+            return
         xs = [lookup[tuple(int(x) for x in r)] for b in cap for r in b.tolist()]
         n = len(xs)
         mean = float(np.mean(xs))
